@@ -461,6 +461,12 @@ REJECT = [
     ('missing space', 'H0'), ('targets need spacing', 'H[tag]0'), ('repeat count too large', 'REPEAT 9223372036854775808 {\nH 0\n}'),
     ('MPAD value', 'MPAD 2'),
 ]
+# numbers past the documented limits, including those that come back into range when reduced modulo 2^32 / 2^64
+for _v in [1 << 63, (1 << 63) + 1, (1 << 64) - 1, 1 << 64, (1 << 64) + 1, (1 << 64) + 7, (1 << 64) + (1 << 62), 10 ** 20, 10 ** 30, 3 * (1 << 64) + 2]:
+    REJECT.append(('repeat count too large', 'REPEAT %d {\nH 0\n}' % _v))
+for _v in [1 << 24, (1 << 24) + 1, (1 << 32) - 1, 1 << 32, (1 << 32) + 1, (1 << 32) + 5, (1 << 33) + 3, 10 ** 12, (1 << 64) + 1, 10 ** 25]:
+    REJECT += [('index too large', 'H %d' % _v), ('index too large', 'M !%d' % _v), ('index too large', 'MPP X%d' % _v),
+               ('index too large', 'M 0\nDETECTOR rec[-%d]' % _v), ('index too large', 'CX sweep[%d] 0' % _v)]
 
 
 def rejections(rep, asan, rng, names):
